@@ -47,3 +47,5 @@ def run(ctx):
     if 'return self.anchors[anchor]' not in src:
         from ..model import AnalysisError
         raise AnalysisError('Composer.compose_node no longer returns the anchored node object for an alias')
+    from . import round3 as R3
+    R3.r01_10_tree_untouched(ctx, 'R18.8')
